@@ -127,7 +127,8 @@ G ==
     UFBit   |-> NT(<< >>, "Bit", None, {}, "free"),
     Bit     |-> Doc(Map({"and", "or", "xor"}, "NUser")),
     UpdArr  |-> NT(<< >>, None, "UpdStmt", {}, "free"),
-    UpdStmt |-> Doc(("q" :> "Q") @@ ("u" :> "UP") @@ ("arrayFilters" :> "QArr") @@ Map({"multi", "upsert", "hint", "collation"}, "Free")),
+    \* one update statement {q, u, c, arrayFilters, ...}: "c" holds the constants of a pipeline-style update (name -> literal)
+    UpdStmt |-> Doc(("q" :> "Q") @@ ("u" :> "UP") @@ ("arrayFilters" :> "QArr") @@ ("c" :> "UF") @@ Map({"multi", "upsert", "hint", "collation"}, "Free")),
     DelArr  |-> NT(<< >>, None, "DelStmt", {}, "free"),
     DelStmt |-> Doc(("q" :> "Q") @@ Map({"limit", "hint", "collation"}, "Free")),
     DocArr  |-> NT(<< >>, None, "L", {}, "free"),
@@ -236,8 +237,11 @@ G ==
     RFPipes |-> NT(<< >>, "PArr", None, {}, "free") ]
 
 \* the command-level slots and the nonterminal of their value
+\* arrayFilters and c belong to the update specification wherever it is spelled at command level: findAndModify carries
+\* arrayFilters next to query / update, and the WRITE log line of one update statement is {q, u, c, arrayFilters, multi, upsert}
 SlotNT == [filter |-> "Q", query |-> "Q", q |-> "Q", sort |-> "Sort", update |-> "UP", u |-> "UP",
-           updates |-> "UpdArr", deletes |-> "DelArr", documents |-> "DocArr", pipeline |-> "PArr"]
+           updates |-> "UpdArr", deletes |-> "DelArr", documents |-> "DocArr", pipeline |-> "PArr",
+           arrayFilters |-> "QArr", c |-> "UF"]
 
 \* Representative keys.  The generator explores the full key set of a nonterminal only as a bounded number of
 \* "deviations" per path (GMWide); all other steps use these small sets.  The number of cases then grows
